@@ -85,7 +85,8 @@ def run(ctx):
     ctx.rule("C20.R2", "translator matrix: per platform, each OS error class comes "
              "out of wrap_exceptions exactly as documented (ESRCH -> Zombie | "
              "NoSuchProcess, EPERM/EACCES -> AccessDenied, others unchanged; PID-0 "
-             "clause on BSD and Solaris only), carrying (pid, name)", floor=20)
+             "clause on BSD and Solaris only), carrying (pid, name); is_zombie() agrees "
+             "with the platform's own status table", floor=24)
     for pm, table in P.TRANSLATOR.items():
         plat = [k for k, v in P.PLATFORM_MODULES.items() if v == pm][0]
         E = Escape(repo, A, plat)
@@ -133,6 +134,7 @@ def run(ctx):
         else:
             ctx.ok("C20.R2", f"{pm}:args", nontrivial=(pm != "_pswindows"),
                    sample=f"{pm}: (pid, name[, ppid]) from the instance")
+    _zombie_recognition(ctx, repo)
     cv = repo.func("_pswindows", "convert_oserror")
     rets = [norm_stmt(r.value).replace(" ", "") for r in ast.walk(cv.node)
             if isinstance(r, ast.Return)]
@@ -199,7 +201,8 @@ def run(ctx):
     ctx.rule("C20.R5", "record slot agreement: each one-shot map is a bijection onto "
              "0..n-1, n equals the number of format units and of arguments of the C "
              "Py_BuildValue for every #if configuration, and each key's slot holds "
-             "the C expression of that role", floor=60)
+             "the C expression of that role; the Windows memory record agrees between "
+             "the C builder, the access-denied fallback and pmem", floor=67)
     for pm, mapname, cfile, cfunc, cfgs, roles in P.ONESHOT:
         m = repo.mod(pm)
         mp = None
@@ -260,6 +263,9 @@ def run(ctx):
             ctx.advisory("C20.R5: FreeBSD/OpenBSD/NetBSD fill the 'saved gid' slot from "
                          "the saved *uid* member (ki_svuid/p_svuid) - outside the property "
                          "statement, not decided")
+
+    _windows_meminfo(ctx, repo)
+    _windows_fallbacks(ctx, repo)
 
     # ------------------------------------------------------------------- R6
     ctx.rule("C20.R6", "front-end post-processing takes effect: the result of a pure "
@@ -418,3 +424,229 @@ def _module_level_name(repo, A, name, plat):
                 walk(st.body)
     walk(m.tree.body)
     return found[0]
+
+
+def _module_table(mod, name, flags):
+    """The dict literal bound to `name` at module level under the platform
+    flags (following if/elif chains), as {key text: value text}."""
+    from ..core.pyrepo import eval_cond
+    found = [None]
+
+    def body(stmts):
+        for st in stmts:
+            if isinstance(st, ast.If):
+                v = eval_cond(st.test, flags)
+                if v is True:
+                    body(st.body)
+                elif v is False:
+                    body(st.orelse)
+                else:
+                    body(st.body)
+                    body(st.orelse)
+            elif isinstance(st, ast.Assign) and dotted(st.targets[0]) == name \
+                    and isinstance(st.value, ast.Dict):
+                found[0] = {norm_stmt(k): norm_stmt(v) for k, v in zip(st.value.keys, st.value.values)}
+    body(mod.tree.body)
+    return found[0]
+
+
+def _zombie_recognition(ctx, repo):
+    """ESRCH becomes ZombieProcess iff is_zombie(pid): the raw states for which
+    is_zombie() answers True must be exactly those the platform's own status
+    table calls STATUS_ZOMBIE (OpenBSD reports zombies as SDEAD)."""
+    from ..core.pyrepo import platform_flags
+    n = 0
+    for plat, pm in sorted(P.PLATFORM_MODULES.items()):
+        f = repo.func(pm, "is_zombie", required=False)
+        if f is None:
+            continue
+        mod = repo.mod(pm)
+        table = _module_table(mod, "PROC_STATUSES", platform_flags(plat))
+        key = f"zombie-recognition:{plat}"
+        if table is None:
+            ctx.fail("C20.R2", key, f.file, f.node.lineno, f.qual,
+                     f"[{plat}] PROC_STATUSES table not found")
+            continue
+        n += 1
+        ztab = {k for k, v in table.items() if v.endswith("STATUS_ZOMBIE")}
+        rets = [r.value for r in ast.walk(f.node) if isinstance(r, ast.Return)
+                and not (isinstance(r.value, ast.Constant) and r.value.value is False)]
+        zfn = None
+        for r in rets:
+            if isinstance(r, ast.Compare) and len(r.ops) == 1:
+                l, rr = r.left, r.comparators[0]
+                if isinstance(r.ops[0], ast.Eq):
+                    for a, b in ((l, rr), (rr, l)):
+                        if norm_stmt(b).endswith("STATUS_ZOMBIE") and "PROC_STATUSES" in norm_stmt(a):
+                            zfn = set(ztab)              # looked up in the table itself
+                        elif dotted(b) and dotted(b).startswith("cext.") and isinstance(a, ast.Name):
+                            zfn = {dotted(b)}
+                elif isinstance(r.ops[0], ast.In) and isinstance(rr, (ast.Tuple, ast.Set, ast.List)):
+                    zfn = {dotted(x) for x in rr.elts}
+        if zfn is None:
+            ctx.advisory(f"C20.R2 {key}: is_zombie() has a form this rule does not know; "
+                         f"not decided")
+            ctx.ok("C20.R2", key, sample="not decided", nontrivial=False)
+        elif zfn == ztab:
+            ctx.ok("C20.R2", key, sample={plat: sorted(ztab)})
+        else:
+            ctx.fail("C20.R2", key, f.file, f.node.lineno, f.qual,
+                     f"[{plat}] is_zombie() recognises {sorted(zfn)} but the platform's status "
+                     f"table reports {sorted(ztab)} as STATUS_ZOMBIE: an ESRCH on a PID in state "
+                     f"{sorted(ztab - zfn) or sorted(zfn - ztab)} is translated to "
+                     f"NoSuchProcess instead of ZombieProcess (or vice versa)")
+    ctx.require(n >= 4, f"only {n} platform configurations with is_zombie() found")
+
+
+def _windows_meminfo(ctx, repo):
+    """Windows memory_info(): three producers of one positional record must agree -
+    the C builder, the access-denied fallback rebuilt from proc_info(), and the
+    pmem field order that memory_info() fills from it."""
+    pm = "_pswindows"
+    m = repo.mod(pm)
+    fields = None
+    for v in m.assigns.get("pmem", []):
+        if isinstance(v, ast.Call) and len(v.args) > 1 and isinstance(v.args[1], (ast.List, ast.Tuple)):
+            fields = [e.value for e in v.args[1].elts if isinstance(e, ast.Constant)]
+    if not fields or fields[:2] != ["rss", "vms"]:
+        raise AnalysisError("_pswindows.pmem vanished or no longer starts with (rss, vms)")
+    rest = fields[2:]
+    want = [k for k, _ in P.WIN_MEMINFO]
+    if rest == want:
+        ctx.ok("C20.R5", "win-meminfo:pmem-fields", sample=rest)
+    else:
+        ctx.fail("C20.R5", "win-meminfo:pmem-fields", m.rel, 0, "pmem",
+                 f"pmem fields after (rss, vms) are {rest}; documented {want}")
+
+    def nk(x):
+        x = x.lower().replace("_", "")
+        return x[3:] if x.startswith("mem") else x
+    # (1) the fallback tuple
+    f = repo.func(pm, "Process._get_raw_meminfo")
+    tup = None
+    for r in ast.walk(f.node):
+        if isinstance(r, ast.Return) and isinstance(r.value, ast.Tuple) and len(r.value.elts) > 3:
+            tup = r.value
+    if tup is None:
+        raise AnalysisError("_get_raw_meminfo: fallback record vanished")
+    keys = []
+    for e in tup.elts:
+        k = None
+        if isinstance(e, ast.Subscript) and isinstance(e.slice, ast.Subscript) \
+                and dotted(e.slice.value) == "pinfo_map" and isinstance(e.slice.slice, ast.Constant):
+            k = e.slice.slice.value
+        keys.append(k)
+    bad = [(i, k, rest[i] if i < len(rest) else None) for i, k in enumerate(keys)
+           if i >= len(rest) or k is None or nk(k) != nk(rest[i])]
+    if not bad and len(keys) == len(rest):
+        ctx.ok("C20.R5", "win-meminfo:fallback", sample=keys)
+    else:
+        i, k, w = bad[0] if bad else (len(keys), None, None)
+        ctx.fail("C20.R5", "win-meminfo:fallback", f.file, tup.lineno, f.qual,
+                 f"the access-denied fallback puts pinfo_map[{k!r}] in slot {i}, which "
+                 f"memory_info() reports as {w!r}: the fallback path and the direct path "
+                 f"disagree on the record layout")
+    # (2) the C builder, both word sizes
+    path = os.path.join(ctx.repo, "psutil", "arch", "windows", "proc.c")
+    if not os.path.exists(path):
+        raise AnalysisError("C source missing: psutil/arch/windows/proc.c")
+    raw = ctext.strip_comments(open(path, encoding="utf-8", errors="replace").read())
+    for defs in ({"PSUTIL_WINDOWS": 1, "_WIN64": 1}, {"PSUTIL_WINDOWS": 1}):
+        cfgname = "win64" if "_WIN64" in defs else "win32"
+        body = ctext.function_body(ctext.preprocess(raw, defs), "psutil_proc_memory_info")
+        if body is None:
+            raise AnalysisError("psutil_proc_memory_info not found")
+        bvs = [c for c in ctext.calls(body, "Py_BuildValue") if len(c[0]) > 3]
+        if not bvs:
+            raise AnalysisError("psutil_proc_memory_info: no record-building Py_BuildValue")
+        cargs = bvs[-1][0][1:]
+        probs = []
+        if len(cargs) != len(P.WIN_MEMINFO):
+            probs.append(f"{len(cargs)} slots, documented {len(P.WIN_MEMINFO)}")
+        else:
+            for i, (k, pat) in enumerate(P.WIN_MEMINFO):
+                if not re.search(pat, cargs[i]):
+                    probs.append(f"slot {i} ({k}) is built from `{cargs[i].strip()}`")
+        if probs:
+            ctx.fail("C20.R5", f"win-meminfo:c-builder:{cfgname}", "psutil/arch/windows/proc.c",
+                     0, "psutil_proc_memory_info", f"[{cfgname}] " + "; ".join(probs[:3]))
+        else:
+            ctx.ok("C20.R5", f"win-meminfo:c-builder:{cfgname}", sample=f"{len(cargs)} slots")
+    # (3) memory_info(): rss / vms aliases and the splice
+    mi = repo.func(pm, "Process.memory_info")
+    idx = {}
+    rec = None
+    for st in ast.walk(mi.node):
+        if isinstance(st, ast.Assign) and isinstance(st.value, ast.Subscript) \
+                and isinstance(st.value.slice, ast.Constant) and isinstance(st.value.slice.value, int):
+            idx[dotted(st.targets[0])] = (dotted(st.value.value), st.value.slice.value)
+        if isinstance(st, ast.Assign) and isinstance(st.value, ast.Call) \
+                and (dotted(st.value.func) or "").endswith("_get_raw_meminfo"):
+            rec = dotted(st.targets[0])
+    calls = [c for c in calls_in(mi.node) if dotted(c.func) == "pmem"]
+    ok = False
+    if calls and rec and len(calls[0].args) == 1 and isinstance(calls[0].args[0], ast.Starred):
+        v = calls[0].args[0].value
+        if isinstance(v, ast.BinOp) and isinstance(v.op, ast.Add) and isinstance(v.left, ast.Tuple) \
+                and len(v.left.elts) == 2 and dotted(v.right) == rec:
+            a, b = (idx.get(dotted(x)) for x in v.left.elts)
+            if a and b and a[0] == b[0] == rec and 0 <= a[1] < len(rest) and 0 <= b[1] < len(rest) \
+                    and rest[a[1]] == "wset" and rest[b[1]] == "pagefile":
+                ok = True
+    if ok:
+        ctx.ok("C20.R5", "win-meminfo:aliases", sample="rss = wset slot, vms = pagefile slot")
+    else:
+        ctx.fail("C20.R5", "win-meminfo:aliases", mi.file, mi.node.lineno, mi.qual,
+                 "memory_info() no longer builds pmem(rss=<wset slot>, vms=<pagefile slot>, "
+                 "*record)")
+
+
+def _pinfo_key(e):
+    if isinstance(e, ast.Subscript) and isinstance(e.slice, ast.Subscript) \
+            and dotted(e.slice.value) == "pinfo_map" and isinstance(e.slice.slice, ast.Constant):
+        return e.slice.slice.value
+    return None
+
+
+def _windows_fallbacks(ctx, repo):
+    """io_counters() / cpu_times() access-denied fallbacks: each slot rebuilt from
+    proc_info() stands for the documented field at that position."""
+    pm = "_pswindows"
+    m = repo.mod(pm)
+
+    def nt_fields(mod, name):
+        for v in repo.mod(mod).assigns.get(name, []):
+            if isinstance(v, ast.Call) and len(v.args) > 1 and isinstance(v.args[1], (ast.List, ast.Tuple)):
+                return [e.value for e in v.args[1].elts if isinstance(e, ast.Constant)]
+        return None
+    # io_counters
+    f = repo.func(pm, "Process.io_counters")
+    fields = nt_fields(pm, "pio")
+    tup = [st.value for st in ast.walk(f.node) if isinstance(st, ast.Assign)
+           and isinstance(st.value, ast.Tuple) and all(_pinfo_key(e) for e in st.value.elts)]
+    if not fields or not tup:
+        raise AnalysisError("_pswindows io_counters fallback / pio vanished")
+    keys = [_pinfo_key(e) for e in tup[0].elts]
+    got = [P.WIN_PINFO_FIELD.get(k) for k in keys]
+    if got == fields:
+        ctx.ok("C20.R5", "win-io:fallback", sample=keys)
+    else:
+        ctx.fail("C20.R5", "win-io:fallback", f.file, tup[0].lineno, f.qual,
+                 f"the access-denied fallback fills pio{tuple(fields)} from {keys} "
+                 f"(= {got}): slots are in the wrong order")
+    # cpu_times
+    f = repo.func(pm, "Process.cpu_times")
+    calls = [c for c in calls_in(f.node) if (dotted(c.func) or "").endswith("pcputimes")]
+    asg = {dotted(st.targets[0]): _pinfo_key(st.value) for st in ast.walk(f.node)
+           if isinstance(st, ast.Assign) and _pinfo_key(st.value)}
+    want = nt_fields("_common", "pcputimes")
+    if not calls or not want:
+        raise AnalysisError("_pswindows cpu_times / pcputimes vanished")
+    a = [dotted(x) for x in calls[0].args[:2]]
+    got = [P.WIN_PINFO_FIELD.get(asg.get(x)) for x in a]
+    if got == want[:2]:
+        ctx.ok("C20.R5", "win-cputimes:fallback", sample={a[0]: asg.get(a[0]), a[1]: asg.get(a[1])})
+    else:
+        ctx.fail("C20.R5", "win-cputimes:fallback", f.file, calls[0].lineno, f.qual,
+                 f"the access-denied fallback feeds pcputimes(user, system, ...) from "
+                 f"{[asg.get(x) for x in a]}")
